@@ -1349,6 +1349,11 @@ class CryptographyEngine(api.CryptographicEngine):
                 ' algorithm and a cryptographic algorithm must be specified.'
             )
 
+        if hash_alg is None:
+            raise exceptions.InvalidField(
+                'For signing, a supported hashing algorithm must be specified.'
+            )
+
         if crypto_alg == enums.CryptographicAlgorithm.RSA:
             try:
                 key = self._create_RSA_private_key(signing_key)
@@ -1369,25 +1374,34 @@ class CryptographyEngine(api.CryptographicEngine):
                 'For signing, a padding method must be specified.'
             )
 
-        if padding == enums.PaddingMethod.PSS:
-            signature = key.sign(
-                data,
-                asymmetric_padding.PSS(
-                    mgf=asymmetric_padding.MGF1(hash_alg()),
-                    salt_length=asymmetric_padding.PSS.MAX_LENGTH
-                ),
-                hash_alg()
-            )
-        elif padding == enums.PaddingMethod.PKCS1v15:
-            signature = key.sign(
-                data,
-                padding_method(),
-                hash_alg()
-            )
-        else:
+        if padding not in [
+            enums.PaddingMethod.PSS,
+            enums.PaddingMethod.PKCS1v15
+        ]:
             raise exceptions.InvalidField(
                 "Padding method '{0}' is not a supported signature "
                 "padding method.".format(padding)
+            )
+
+        try:
+            if padding == enums.PaddingMethod.PSS:
+                signature = key.sign(
+                    data,
+                    asymmetric_padding.PSS(
+                        mgf=asymmetric_padding.MGF1(hash_alg()),
+                        salt_length=asymmetric_padding.PSS.MAX_LENGTH
+                    ),
+                    hash_alg()
+                )
+            else:
+                signature = key.sign(
+                    data,
+                    padding_method(),
+                    hash_alg()
+                )
+        except Exception:
+            raise exceptions.CryptographicFailure(
+                "The signature creation process failed."
             )
         return signature
 
